@@ -2489,3 +2489,23 @@ for _P, _R in (("C04", "R4.8"), ("C01", "R1.20")):
             for _ in range(count):
                 out.append(event)
         return out''', "nested loops instead of a generator")
+
+# ============================================================ PUML table (R5.18), R5.17
+M("C05", "activity-line-without-name", PG,
+  '''        blocks.append(f"{' ' * indent}:{self.node_type}{branch_info};")''',
+  '''        blocks.append(f"{' ' * indent}:{self.node_id[0]}_{self.node_id[1]}{branch_info};")''',
+  "R5.18", "activity line carries the occurrence-numbered node id")
+M("C05", "loop-node-not-registered", PG,
+  "        if parent_graph_node is not None:\n            self.add_parent_graph_node_to_node_ref(",
+  "        if parent_graph_node is not None and sub_graph is None:\n            self.add_parent_graph_node_to_node_ref(",
+  "R5.18", "diagram nodes with a body are not registered under their model node")
+M("C05", "dummy-end-kept", PG,
+  "            and node.node_type == DUMMY_END_EVENT",
+  "            and node.node_type == DUMMY_START_EVENT", "R5.18",
+  "the dummy end sink removes dummy starts")
+M("C05", "simple-dummy-break-no-reattach", PG,
+  '''            graph.add_puml_edge(
+                dummy_break_event_in_node,
+                dummy_break_event_out_node
+            )''', "            pass", "R5.17",
+  "what followed the dummy break is cut off")
